@@ -28,6 +28,8 @@ DEFAULTS = {
     'default_view_returns_context': True,
     'permissive_checks_predicates': False,
     'nf_forwards': list(DIRECTIVE_PREDS), 'fb_forwards': list(DIRECTIVE_PREDS),
+    'viewdefaults_on': ['add_view', 'add_exception_view', 'add_notfound_view', 'add_forbidden_view'],
+    'containment_reads_request_context': True, 'physical_path_reads_request_context': False,
 }
 
 
@@ -353,12 +355,50 @@ def _classes(src, v, problems):
     n = [ast.unparse(st) for st in mi.tree.body if isinstance(st, ast.Assign) and 'combined' in ast.unparse(st.targets[0])]
     if n != ['IRequest.combined = IRequest']:
         problems.append('pyramid/interfaces.py: IRequest.combined is set by %s' % n)
+    # the decorators of the directives: @action_method always; @viewdefaults is a regenerated FACT (the model applies
+    # the view class's __view_defaults__ before the directive's own body only where the decorator is)
     mv = F.Module(src, 'pyramid/config/views.py')
-    for meth, want in DECORATED.items():
+    on = []
+    for meth in ('add_view', 'add_exception_view', 'add_notfound_view', 'add_forbidden_view'):
         fn = mv.find('ViewsConfiguratorMixin.' + meth)
         got = [ast.unparse(d) for d in fn.decorator_list] if fn else None
-        if got != want:
-            problems.append('%s: decorators %s, expected %s' % (meth, got, want))
+        if got == ['viewdefaults', 'action_method']:
+            on.append(meth)
+        elif got != ['action_method']:
+            problems.append('%s: decorators %s: neither [viewdefaults, action_method] nor [action_method]' % (meth, got))
+    v['viewdefaults_on'] = on
+    # which object the predicates of a view consult: their `context` argument (for an exception view: the exception)
+    # or request.context (the traversed resource).  Only containment and physical_path may look at either.
+    mp = F.Module(src, 'pyramid/predicates.py')
+    for st in mp.tree.body:
+        if not isinstance(st, ast.ClassDef):
+            continue
+        call = [f for f in st.body if isinstance(f, ast.FunctionDef) and f.name == '__call__']
+        if not call:
+            continue
+        fn = call[0]
+        if [a.arg for a in fn.args.args] != ['self', 'context', 'request']:
+            problems.append('predicates.py: %s.__call__ signature' % st.name)
+            continue
+        uses_ctx = [n for n in ast.walk(fn) if isinstance(n, ast.Name) and n.id == 'context' and isinstance(n.ctx, ast.Load)]
+        req_ctx = [n for n in ast.walk(fn) if (isinstance(n, ast.Attribute) and n.attr == 'context' and _name(n.value) == 'request')
+                   or (isinstance(n, ast.Call) and _name(n.func) == 'getattr' and len(n.args) >= 2
+                       and _name(n.args[0]) == 'request' and isinstance(n.args[1], ast.Constant) and n.args[1].value == 'context')]
+        rebinds = [n for n in ast.walk(fn) if isinstance(n, ast.Name) and n.id in ('context', 'request') and isinstance(n.ctx, ast.Store)]
+        if rebinds:
+            problems.append('predicates.py: %s.__call__ rebinds context/request' % st.name)
+        key = {'ContainmentPredicate': 'containment_reads_request_context',
+               'PhysicalPathPredicate': 'physical_path_reads_request_context'}.get(st.name)
+        if key:
+            # getattr(request, 'context', context) counts as reading request.context (falling back to the argument)
+            v[key] = bool(req_ctx)
+            if not req_ctx and not uses_ctx:
+                problems.append('predicates.py: %s.__call__ consults neither its context argument nor request.context' % st.name)
+        elif st.name in ('CustomPredicate', 'Notted', 'TraversePredicate'):
+            pass        # hand both on to user code / the wrapped predicate; traverse= is a route pseudo-predicate
+        elif uses_ctx or req_ctx:
+            problems.append('predicates.py: %s.__call__ looks at the context (argument or request.context): the model '
+                            'evaluates it on the request alone' % st.name)
 
 
 def _forwards(src, v, problems):
@@ -436,13 +476,15 @@ def extract(src, problems):
 
 def emit(v):
     out = [F.HEADER]
-    for k in ('hidden_names', 'set_in_with', 'set_after', 'default_excview_contexts', 'nf_forwards', 'fb_forwards'):
+    for k in ('hidden_names', 'set_in_with', 'set_after', 'default_excview_contexts', 'nf_forwards', 'fb_forwards',
+              'viewdefaults_on'):
         out.append('Definition %s : list text := %s.\n' % (k, F.coq_texts(v[k])))
     for k in ('exc_view_name', 'exc_classifier', 'iev_none_raises', 'iev_reraise_catches', 'handler_catches',
               'tween_catches', 'nf_context', 'fb_context', 'exc_default_context'):
         out.append('Definition %s : text := %s.\n' % (k, F.coq_text(v[k])))
     for k in ('uses_combined', 'lookup_uses_provided_by', 'handler_reraises_original', 'nf_exception_only',
               'fb_exception_only', 'exc_exception_only', 'default_view_returns_context',
-              'permissive_checks_predicates'):
+              'permissive_checks_predicates', 'containment_reads_request_context',
+              'physical_path_reads_request_context'):
         out.append('Definition %s : bool := %s.\n' % (k, F.coq_bool(v[k])))
     return ''.join(out)
